@@ -31,12 +31,17 @@ type c20Case struct {
 	LMTP    bool      `json:"lmtp"`
 	PerRcpt bool      `json:"per_rcpt"`
 	NConns  int       `json:"nconns"`
-	Gate    string    `json:"gate"` // "", "pre", "post": deliveries park on a gate
+	Gate    string    `json:"gate"`            // "", "pre", "post", "start": deliveries park on a gate
+	Early   bool      `json:"early,omitempty"` // deliveries refuse without reading the message
 	Steps   []c20Step `json:"steps"`
 }
 
 func c20Run(c c20Case) Verdict {
 	plan := harness.DataPlan{Read: harness.ReadPlan{Limit: -1}, Honest: true, GatePre: c.Gate == "pre", GatePost: c.Gate == "post"}
+	if c.Early {
+		plan.Read.Limit = 0
+		plan.Result = harness.Decision{Kind: "smtp", Code: 550, Enh: [3]int{5, 7, 1}, Msg: "refused by policy"}
+	}
 	script := harness.Script{LMTPSession: c.LMTP && c.PerRcpt, DefaultData: &plan, GateStart: c.Gate == "start"}
 	r := harness.NewRig(harness.Config{LMTP: c.LMTP}, script)
 	wires := make([]*harness.Wire, c.NConns)
@@ -69,7 +74,9 @@ func c20Run(c c20Case) Verdict {
 			case "last":
 				w.Send([]byte("BDAT 5 LAST\r\nworld"))
 			case "data":
-				w.Send([]byte("DATA\r\nbody\r\n.\r\n"))
+				w.Send([]byte("DATA\r\n"))
+				w.Send([]byte("line one of the body\r\nline two of the body\r\n"))
+				w.Send([]byte("line three\r\n.\r\nNOOP\r\n"))
 			case "rset":
 				w.Send([]byte("RSET\r\n"))
 			case "quit":
@@ -245,6 +252,7 @@ func c20Run(c c20Case) Verdict {
 func c20Gen(t *rapid.T) c20Case {
 	c := c20Case{LMTP: rapid.Bool().Draw(t, "lmtp"), PerRcpt: rapid.Bool().Draw(t, "perrcpt"), NConns: rapid.IntRange(1, 3).Draw(t, "nconns"),
 		Gate: rapid.SampledFrom([]string{"", "pre", "post", "post", "start"}).Draw(t, "gate")}
+	c.Early = rapid.IntRange(0, 3).Draw(t, "early") == 0
 	// per-connection programs
 	progs := make([][]string, c.NConns)
 	for i := range progs {
